@@ -11,9 +11,10 @@ m = json.load(open(os.path.join(core.VERIF, 'MANIFEST.json')))
 targets = []
 for c in m['checks']:
     pid = c['property_id']
-    for f in ('Props.vo', 'Examples.vo'):
-        if os.path.exists(os.path.join(core.COQ, pid, f[:-1])):
-            targets.append('%s/%s' % (pid, f))
+    d = os.path.join(core.COQ, pid)
+    for f in sorted(os.listdir(d)) if os.path.isdir(d) else []:
+        if f.endswith('.v') and (f.startswith('Props') or f.startswith('Examples')):
+            targets.append('%s/%so' % (pid, f))
 core.coq_makefile()
 rc, out = core.sh(['make', '-f', 'Makefile.coq', '-k', '-j%d' % core.NCPU] + targets, cwd=core.COQ, timeout=7200)
 print(out[-3000:])
